@@ -24,6 +24,9 @@ size_t simfd_rx_pending(int task, int fd);
 /* FILE* over simulated content: chunks/faults come from the current op's fault script (FC_READ) */
 FILE *simfd_cookie_stream(const void *data, size_t len, int seekable, size_t startpos);
 FILE *simfd_cookie_stream_unreadable(void);
+uint32_t simfd_gen_now(void);
+void simfd_set_select_eintr(int k);
+void simfd_set_base(int b);      /* 0: simulated descriptors are numbered from 0 (standard descriptors closed); anything else: from SIMFD_BASE */
 FILE *simfd_fd_stream(int fd);      /* stdio stream over a simulated descriptor (fileno() works, stdio reads ahead) */
 int   simfd_open_streams(void);                   /* census of cookie streams not yet closed */
 extern uint64_t simfd_stat_cookie_reads, simfd_stat_cookie_short;
